@@ -326,7 +326,14 @@ func (w *world) actPut() {
 	k := keyOf(rapid.IntRange(0, nObj-1).Draw(t, "id"))
 	m := w.get(k)
 	if !m.hasSpec {
-		kind := rapid.SampledFrom([]string{uni.Regular, uni.Regular, uni.Regular, uni.Lock, uni.Lock, uni.Lock, uni.Tombstone, uni.Tombstone}).Draw(t, "kind")
+		kinds := []string{uni.Regular, uni.Regular, uni.Regular, uni.Lock, uni.Lock, uni.Lock, uni.Tombstone, uni.Tombstone}
+		for tk := range w.lockAccepted {
+			if tk.c == k.c && !w.threatened[tk] {
+				kinds = append(kinds, uni.Tombstone, uni.Tombstone, uni.Tombstone)
+				break
+			}
+		}
+		kind := rapid.SampledFrom(kinds).Draw(t, "kind")
 		s := uni.Spec{Kind: kind, Cnr: k.c, ID: k.i, Exp: w.genExp("exp"), Parent: -1, ParentExp: -1, First: -1}
 		if kind == uni.Regular {
 			s.PayloadLen = rapid.SampledFrom([]int{0, 1, 7, 64}).Draw(t, "len")
@@ -537,6 +544,9 @@ func (w *world) actGC() {
 }
 
 func (w *world) actReopen() {
+	if rapid.IntRange(0, 2).Draw(w.t, "really-reopen") != 0 {
+		w.t.Skip("reopen only sometimes")
+	}
 	if err := w.sh.Close(); err != nil {
 		w.fail("close: %v", err)
 	}
